@@ -14,7 +14,8 @@ from akext import _lib
 from akext import content as _content
 from akext import forms as _forms
 from akext import identities as _identities
-from akext._util import FILENAME, CastError, arg_int64, arg_string, cast_int64, cast_string, dict2parameters, _badarg
+from akext._util import (FILENAME, CastError, arg_int64, arg_string, cast_int64, cast_string, dict2parameters,
+                         _badarg, no_pickle)
 
 
 def _fn(line):
@@ -264,6 +265,7 @@ def _length_arg(length, who, line):
         raise ValueError(who + " 'length' must be an int or None" + _fn(line))
 
 
+@no_pickle
 class _GeneratorBase(object):
     __slots__ = ("_h", "__weakref__")
 
@@ -366,6 +368,7 @@ class SliceGenerator(_GeneratorBase):
         return _content._sharec(_lib.L.akp_slicegen_content(self._h))
 
 
+@no_pickle
 class ArrayCache(object):
     __slots__ = ("_h", "__weakref__")
 
